@@ -165,7 +165,9 @@ Connectors == {"custom", "default"}
 (* via: how the transport comes about and how the settings object was built - the library dials the URL; or the caller hands in a
    connected TcpStream with set_std_stream() as the last ("stream-last") or the first ("stream-first") setter of the chain.  The
    machine does not depend on it: what was requested must hold whichever way the settings were assembled. *)
-Vias == {"dial", "stream-last", "stream-first"}
+(* "unix": the caller hands in a connected Unix-domain stream together with an ldap:// or ldaps:// URL - a mismatch the library
+   refuses (MismatchedStreamType): whatever the peer would do, establishment fails and nothing is sent *)
+Vias == {"dial", "stream-last", "stream-first", "unix"}
 (* host: the URL names the server by DNS name or by IP literal (the CA-signed leaf is valid for both, the wrong-name leaf for
    neither); store: the trust store the default connector draws on - the system's, which does not know the test CA, or one that
    contains it (SSL_CERT_FILE) *)
@@ -209,6 +211,7 @@ HsResults(cfg, hs) ==
 
 (* results allowed for a whole script: the oracle the harness compares with *)
 Verdict(cfg, sc) ==
+  IF cfg.via = "unix" THEN {"err"} ELSE
   IF cfg.mode = "ldaps"
   THEN HsResults(cfg, sc.hs) \cup (IF sc.inj = "before" THEN {"err"} ELSE {})
   ELSE CASE sc.resp = "success" ->
@@ -232,7 +235,7 @@ Phases == {"Init", "Tcp", "StartTlsSent", "Handshake", "Ready", "Bound", "Failed
 (*   bindresult(rc)              what the client's bind returned (rc or -1)  *)
 (* Step(cfg, sc, s, ev) = set of successor states; {} = not a behaviour of   *)
 (* a correct client.                                                        *)
-Step(cfg, sc, s, ev) ==
+StepTcp(cfg, sc, s, ev) ==
   CASE ev.e = "accept" ->
          IF s.phase = "Init"
          THEN {[s EXCEPT !.phase = "Tcp",
@@ -312,5 +315,13 @@ FaultsFail(cfg, sc, s) ==
   /\ s.phase = "Failed" => "err" \in Verdict(cfg, sc)
 
 (* a finished observation sequence must end in one of these *)
+(* a Unix-domain stream under an ldap:// / ldaps:// URL: the peer's end exists ("accept"), establishment fails, nothing else *)
+Step(cfg, sc, s, ev) ==
+  IF cfg.via = "unix"
+  THEN CASE ev.e = "accept" -> IF s.phase = "Init" THEN {[s EXCEPT !.phase = "Tcp"]} ELSE {}
+         [] ev.e = "result" -> IF ev.r = "err" /\ ~ev.late /\ s.phase \in {"Init", "Tcp"} THEN {[s EXCEPT !.phase = "Failed"]} ELSE {}
+         [] OTHER -> {}
+  ELSE StepTcp(cfg, sc, s, ev)
+
 Final(s) == s.phase \in {"Bound", "Failed", "Pending"}
 =============================================================================
